@@ -223,10 +223,15 @@ func main() {
 			}
 			enc.Encode(res)
 		}
-		// all ordered pairs (prefix-or-statement, full statement) from the corpus first: systematic
+		// last statements: the valid corpus, statements the semantic layer must reject, and repeated-key statements
+		lastPool := append(append(append([]string{}, stmtCorpus...), semInvalidCorpus...), repeatedKeyCorpus...)
+		// earlier statements additionally include those (accepted ones leave state behind too)
+		pool = append(pool, semInvalidCorpus...)
+		pool = append(pool, repeatedKeyCorpus...)
+		// all ordered pairs (prefix-or-statement, last statement): systematic
 		if *maxlen > 0 {
 			for _, a := range pool {
-				for _, b := range stmtCorpus {
+				for _, b := range lastPool {
 					one([]string{a, b})
 				}
 			}
@@ -237,8 +242,21 @@ func main() {
 			for j := 0; j < k-1; j++ {
 				seq = append(seq, pool[rng.Intn(len(pool))])
 			}
-			seq = append(seq, stmtCorpus[rng.Intn(len(stmtCorpus))])
+			seq = append(seq, lastPool[rng.Intn(len(lastPool))])
 			one(seq)
+		}
+		// determinism: the meaning of a statement is a function of its text: parse it 25 times on fresh parsers
+		for _, txt := range lastPool {
+			fp0, _ := grammar.NewParser(grammar.SemanticBQL())
+			first := parseDump(fp0, txt)
+			same, other := true, ""
+			for k := 0; k < 25 && same; k++ {
+				fp, _ := grammar.NewParser(grammar.SemanticBQL())
+				if d := parseDump(fp, txt); d != first {
+					same, other = false, d
+				}
+			}
+			enc.Encode(stRes{Kind: "determinism", Seq: []string{txt}, Same: same, Shared: other, Fresh: first})
 		}
 	case "hooks":
 		// drive the exported stateful hook closures directly with token sequences (kind, text valid?) and record,
@@ -459,4 +477,30 @@ var stmtCorpus = []string{
 	`construct {?s "knows"@[] ?o} into ?b from ?a where {?s "parent_of"@[] ?o};`,
 	`construct {?s "knows"@[?t] ?o ; "since"@[] ?t . _:v "x"@[] ?s} into ?b, ?c from ?a where {?s "bought"@[?t] ?o} having ?s = /u<joe>;`,
 	`deconstruct {?s "knows"@[] ?o} in ?b from ?a where {?s "parent_of"@[] ?o};`,
+}
+
+// syntactically valid statements the semantic checks reject (or should treat specially)
+var semInvalidCorpus = []string{
+	`select ?s, ?o from ?a where {?s "p"@[] ?o} group by ?s;`,
+	`select count(?s) as ?n from ?a where {?s "p"@[] ?o};`,
+	`select ?s, count(?o) as ?n from ?a where {?s "p"@[] ?o};`,
+	`select ?zz from ?a where {?s "p"@[] ?o};`,
+	`select ?s from ?a where {?s "p"@[] ?o} group by ?zz;`,
+	`select ?s from ?a where {?s "p"@[] ?o} order by ?zz;`,
+	`select ?s from ?a where {?s "p"@[] ?o} limit "1.5"^^type:float64;`,
+	`select ?s, sum(?o) as ?t from ?a where {?s "p"@[] ?o} group by ?o;`,
+	`select ?s as ?x, ?o as ?x from ?a where {?s "p"@[] ?o};`,
+	`insert data into ?a {/u<joe> "p"@[] "x"^^type:int64};`,
+	`select ?s from ?a where {?s "p"@[] ?o} before 2016-13-45;`,
+	`select ?s from ?a where {?s "p"@[] ?o . filter latest(?zz)};`,
+	`construct {?zz "knows"@[] ?o} into ?b from ?a where {?s "parent_of"@[] ?o};`,
+}
+
+// statements with repeated GROUP BY / ORDER BY keys (meaning must still be a function of the text)
+var repeatedKeyCorpus = []string{
+	`select ?a, ?b, ?c from ?g where {?a ?b ?c} group by ?a, ?b, ?c, ?a;`,
+	`select ?a, ?b, ?c from ?g where {?a ?b ?c} group by ?a, ?b, ?c order by ?c, ?a, ?b;`,
+	`select ?a, ?b from ?g where {?a ?b ?c} group by ?a, ?b, ?a, ?b;`,
+	`select ?a, ?b, ?c from ?g where {?a ?b ?c} order by ?a, ?b, ?c, ?a;`,
+	`select ?a, ?b, ?c from ?g where {?a ?b ?c} order by ?a asc, ?b desc, ?a desc, ?c;`,
 }
